@@ -62,9 +62,11 @@ def lean_build(targets):
 
 
 def theorems_for(prop):
-    with open(os.path.join(LEAN, "theorems.json")) as f:
-        t = json.load(f)
-    return t.get(prop, {"module": None, "theorems": [], "examples": 0, "generated": []})
+    fn = os.path.join(LEAN, "theorems", prop + ".json")
+    if not os.path.exists(fn):
+        return {"module": None, "theorems": [], "examples": 0, "generated": []}
+    with open(fn) as f:
+        return json.load(f)
 
 
 def grep_forbidden(files):
